@@ -26,7 +26,7 @@ import z3
 
 from ..common import VIOLATION, Run
 from ..sqlsmt import filtergen as G
-from ..sqlsmt import regions, tv, ufmode as U
+from ..sqlsmt import regions, selftest, tv, ufmode as U
 from ..sqlsmt import sqlparse_ind as SP
 
 PID = "C09"
@@ -62,10 +62,10 @@ def build_terms(tier: str, seed: int) -> Tuple[List[dict], Dict[str, Any]]:
         for t in ext.terms("bool", n):
             add(f"size{n}", t)
     size2 = ext.terms("bool", 2)
-    for t in G.sample(size2, 500 if quick else 12000, rng):
+    for t in G.sample(size2, 500 if quick else len(size2), rng):
         add("size2", t)
     rich = G.Cfg(G.extended_leaves(G.STR_POOL_CORE), extended=True)
-    plan = {3: 450, 4: 150} if quick else {3: 12000, 4: 6000, 5: 2500}
+    plan = {3: 450, 4: 150} if quick else {3: 40000, 4: 20000, 5: 8000, 6: 3000}
     for n, cnt in plan.items():
         for _ in range(cnt):
             try:
@@ -73,7 +73,7 @@ def build_terms(tier: str, seed: int) -> Tuple[List[dict], Dict[str, Any]]:
             except KeyError:
                 continue
     info = {"special_families": n_special, "exhaustive": {"size0": ext.count("bool", 0), "size1": ext.count("bool", 1)},
-            "size2": {"total": len(size2), "taken": min(len(size2), 500 if quick else 12000)}, "sampled": plan,
+            "size2": {"total": len(size2), "taken": min(len(size2), 500 if quick else len(size2))}, "sampled": plan,
             "filters": len(out)}
     return out, info
 
@@ -117,11 +117,17 @@ def _sqlite_accepts(sql: str) -> Tuple[bool, str]:
 
 def check_filter(item: dict) -> List[dict]:
     res: List[dict] = []
+    tv.ACTIVE_MUTANT = item.get("mutant")
     try:
         _check_filter(item, res)
     except Exception as e:                                    # noqa: BLE001
         res.append({"name": item["name"], "ob": "harness", "status": "harness_error", "dialect": "-",
                     "why": f"{type(e).__name__}: {e}\n{traceback.format_exc(limit=5)}"})
+    finally:
+        tv.ACTIVE_MUTANT = None
+    if item.get("family") == "selftest":
+        for r in res:
+            r["selftest"] = item.get("mutant") or "unmutated"
     return res
 
 
@@ -167,7 +173,9 @@ def _check_filter(item: dict, res: List[dict]) -> None:
             st2, sql2 = tv.real_sql(text, dialect)
             if st2 != "ok" or sql2 != sql:
                 emit("wellformed", "harness_error", why="re-running the visitor gave a different text", witness=w)
-            elif dialect == "sqlite" and _sqlite_accepts(sql)[0]:
+            elif dialect == "sqlite" and e.kind != "bare-word" and _sqlite_accepts(sql)[0]:
+                # (a bare word is excluded from this cross-check: sqlite3 folds `0 AND <unresolvable name>` away at
+                #  parse time, which does not make the placeholder text well-formed)
                 emit("wellformed", "harness_error", why=f"independent parser rejects text the real sqlite3 accepts: {e}",
                      witness=w)
             else:
@@ -314,7 +322,7 @@ def classify(r: dict) -> str:
         k = r.get("illformed_kind", "")
         if k == "bare-word" and "None" in sql:
             return "renders-None(unary-minus)" if "unary-minus" in f else "renders-None"
-        if k == "unterminated-literal":
+        if k == "unterminated-literal" or "like-literal-quote" in f:
             return "like-pattern-quote-not-doubled"
         if k == "comparison-chain":
             return "predicate-as-comparison-operand-unparenthesised"
@@ -357,6 +365,10 @@ def replay_known(entry: dict) -> Tuple[bool, str]:
 
 def main() -> int:
     run = Run(PID, "translation_validation")
+    from ..common import REPLAY_DIR
+    if (REPLAY_DIR / PID).is_dir():       # replay files are regenerated by every run of this property
+        for f_ in (REPLAY_DIR / PID).glob("*.json"):
+            f_.unlink()
     quick = run.tier == "quick"
     progress = bool(os.environ.get("VERIF_PROGRESS"))
     try:
@@ -392,6 +404,7 @@ def main() -> int:
                   "uninterpreted / 16-bit sort; integer literals symbolic (sentinels)", "filters": info,
                   "dialects": list(DIALECTS), "alias": [None, ALIAS],
                   "programs": len(items) * len(DIALECTS) * 2}
+    n_filters = len(items)
     run.outside = ["constructs without a template (standard CAST(x + 0.5 AS INTEGER) / SQLite TRUNC(x + 0.5) for round, "
                    "list functions, geo, lambdas)", "wildcard characters inside the *value* of a non-literal LIKE operand "
                    "(C01)", "filters larger than the sampled sizes",
@@ -405,6 +418,11 @@ def main() -> int:
         "string literals with different texts denote different values; float / date / duration literals are opaque",
     ]
 
+    muts = [{"name": f"m{i}", "family": "selftest", "term": term, "mutant": mname, "regions": [], "timeout_ms": 10000}
+            for i, (mname, term) in enumerate(selftest.FILTERS) if mname in selftest.C09_MUTANTS]
+    muts += [dict(m, name=m["name"] + "b", mutant=None) for m in muts]
+    n_filters = len(items)
+    items = muts + items
     nproc = min(16, os.cpu_count() or 4)
     t0 = time.time()
     allres: List[dict] = []
@@ -414,6 +432,20 @@ def main() -> int:
             if progress and i % 200 == 0:
                 print(f"[{PID}] {i}/{len(items)} {time.time() - t0:.0f}s", file=sys.stderr, flush=True)
     allres.sort(key=lambda r: (int(r["name"][1:]) if r["name"][1:].isdigit() else -1, r["dialect"], r["ob"]))
+    # ---- self-test: every mutant must be reported in every dialect, its unmutated twin in none
+    st_groups: Dict[Tuple[str, str, str], List[dict]] = {}
+    for r in [r for r in allres if r.get("selftest")]:
+        st_groups.setdefault((r["name"], r["selftest"], r["dialect"]), []).append(r)
+    for (nm, mname, d), rs in sorted(st_groups.items()):
+        bad = [r for r in rs if r["status"] == "violation"]
+        label = f"selftest:{mname}:{d}:{rs[0].get('filter')}"
+        if (mname != "unmutated") == bool(bad) and not any(r["status"] == "harness_error" for r in rs):
+            run.discharged(label, "selftest", sum(r.get("solver_s", 0.0) for r in rs), nontrivial=False,
+                           detail={"reported": [f"{r['ob']}: {r['what'][:120]}" for r in bad]})
+        else:
+            run.harness_error(label, "selftest", f"self-test expected {'a violation' if mname != 'unmutated' else 'no violation'}; "
+                                                 f"got {[(r['ob'], r['status']) for r in rs]}")
+    allres = [r for r in allres if not r.get("selftest")]
 
     counts: Dict[str, Dict[str, int]] = {}
     classes: Dict[str, List[dict]] = {}
@@ -468,7 +500,8 @@ def main() -> int:
         best = min(lst, key=lambda r: (len(r["filter"]), r["filter"]))
         minimal[cls] = {"count": len(lst), "obligation": best["ob"], "filter": best["filter"],
                         "sql": best["witness"].get("sql"), "what": best["what"],
-                        "field_values": best["witness"].get("field_values")}
+                        "field_values": best["witness"].get("field_values"),
+                        "more_filters": sorted({r["filter"] for r in lst}, key=lambda x: (len(x), x))[1:25]}
     run.programs = programs
     run.disagreements_checked = sum(c.get("violation", 0) + c.get("harness_error", 0) for c in counts.values())
     run.extra.update({
@@ -478,6 +511,13 @@ def main() -> int:
         "outside_template_table": dict(sorted(outside.items(), key=lambda kv: -kv[1])[:20]),
         "violation_classes": minimal, "known_regions_active": active,
     })
-    print(f"[{PID}] filters={len(items)} programs={programs} " +
+    print(f"[{PID}] filters={n_filters} programs={programs} " +
           " ".join(f"{ob}:{'/'.join(f'{k}={v}' for k, v in sorted(c.items()))}" for ob, c in sorted(counts.items())), flush=True)
     return run.finish()
+
+
+def replay(data: dict) -> int:
+    """Re-run one replay file on the live visitors.  Returns 1 if the counterexample still reproduces, 0 if not."""
+    still, what = replay_known({"witness": data["witness"]})
+    print(("REPRODUCED: " if still else "not reproduced: ") + what)
+    return 1 if still else 0
